@@ -1,7 +1,7 @@
 (* QueryParse.v — filters over a query in disjunctive form, [?( b && b ... || b && b ... )], through the regenerated
    grammar: query is andQuery (|| andQuery)*, andQuery is basicQuery (&& basicQuery)*; a basic query here is an
    existence test @steps, its negation !@steps, or a comparison @steps OP number.  No blanks inside. *)
-From JP Require Import Peg Grammar Text Tree Actions PegFacts PegMono PegEv FuelRules ParseFacts KeyDefs KeyParse IdxParse SliceParse UnionParse WildParse RecParse ChainParse SpacePath FunParse AggParse Frame FiltParse CmpParse NegFilt LitParse RootOp RegexOp NoDollar.
+From JP Require Import Peg Grammar Text Tree Actions PegFacts PegMono PegEv FuelRules ParseFacts KeyDefs KeyParse IdxParse SliceParse UnionParse WildParse RecParse ChainParse SpacePath FunParse AggParse Frame FiltParse CmpParse NegFilt LitParse RootOp RegexOp LitLeft NoDollar.
 From Coq Require Import Lia.
 Local Open Scope N_scope.
 Open Scope list_scope.
@@ -16,6 +16,7 @@ Definition bq_ok (b : bq) : bool :=
                  match o with OLt | OLe | OGt | OGe => true | _ => false end
   | BPQ i ne j => forallb rstep_ok i && negb (steps_vg i) && (forallb rstep_ok j && negb (steps_vg j))
   | BX i body => forallb rstep_ok i && negb (steps_vg i) && re_plain body
+  | BCL lit o i => forallb rstep_ok i && negb (steps_vg i) && lit_ok lit
   end.
 Definition eq_text (ne : bool) : list N := if ne then [33; 61] else [61; 61].
 Definition bq_tokens (pos : nat) (b : bq) : list token :=
@@ -33,6 +34,8 @@ Definition bq_tokens (pos : nat) (b : bq) : list token :=
   | BPQ i ne j => left43_tokens pos i ++ right43_tokens (pos + 1 + List.length (render_steps i) + 2) j ++ [TAct (if ne then 29%nat else 28%nat)] ++
                   [TText pos (pos + (1 + List.length (render_steps i) + 2 + (1 + List.length (render_steps j)))); TAct 26]
   | BX i body => rx39_tokens pos i body ++ [TText pos (pos + (1 + List.length (render_steps i) + 3 + List.length body + 1)); TAct 26]
+  | BCL lit o i => lcmp39_tokens pos lit o i ++
+                   [TText pos (pos + (List.length lit + List.length (op_text o) + 1 + List.length (render_steps i))); TAct 26]
   end.
 
 Lemma bq_text_len b : List.length (bq_text b) =
@@ -46,15 +49,20 @@ Lemma bq_text_len b : List.length (bq_text b) =
   | BCR i o j => (1 + List.length (render_steps i) + List.length (op_text o) + (1 + List.length (render_steps j)))%nat
   | BPQ i ne j => (1 + List.length (render_steps i) + 2 + (1 + List.length (render_steps j)))%nat
   | BX i body => (1 + List.length (render_steps i) + 3 + List.length body + 1)%nat
+  | BCL lit o i => (List.length lit + List.length (op_text o) + 1 + List.length (render_steps i))%nat
   end.
-Proof. destruct b as [i|i|i o lit|i ne l|j|j|i o j|i ne j|i body]; cbn [bq_text List.length]; rewrite ?app_length; cbn [List.length]; rewrite ?app_length; cbn [List.length]; try lia; destruct ne; cbn [List.length]; lia. Qed.
-Lemma bq_head b : exists x r, bq_text b = x :: r /\ x <> 32.
-Proof. destruct b as [i|i|i o lit|i ne l|j|j|i o j|i ne j|i body]; cbn [bq_text]; eexists _, _; (split; [reflexivity|discriminate]). Qed.
+Proof. destruct b as [i|i|i o lit|i ne l|j|j|i o j|i ne j|i body|lit o i]; cbn [bq_text List.length]; rewrite ?app_length; cbn [List.length]; rewrite ?app_length; cbn [List.length]; try lia; destruct ne; cbn [List.length]; lia. Qed.
+Lemma bq_head b : bq_ok b = true -> exists x r, bq_text b = x :: r /\ x <> 32.
+Proof.
+  intros Hb. destruct b as [i|i|i o lit|i ne l|j|j|i o j|i ne j|i body|lit o i]; cbn [bq_text]; try (eexists _, _; (split; [reflexivity|discriminate])).
+  cbn [bq_ok] in Hb. apply andb_true_iff in Hb. destruct Hb as [_ Hl]. destruct (lit_head lit Hl) as (c1 & r & E & H32 & _). rewrite E. cbn [app].
+  eexists _, _. split; [reflexivity|exact H32].
+Qed.
 
 Lemma ev35_bq b c t pos : bq_ok b = true -> qend c ->
   evG (PRef 35) (bq_text b ++ c :: t) pos (POk (c :: t) (pos + List.length (bq_text b)) (bq_tokens pos b)).
 Proof.
-  intros Hb Hq. rewrite bq_text_len. destruct b as [i|i|i o lit|i ne l|j|j|i o j|i ne j|i body]; cbn [bq_ok bq_text bq_tokens app] in *.
+  intros Hb Hq. rewrite bq_text_len. destruct b as [i|i|i o lit|i ne l|j|j|i o j|i ne j|i body|lit o i]; cbn [bq_ok bq_text bq_tokens app] in *.
   - eapply ev_conv.
     + eapply ev_ref; [reflexivity|].
       apply ev_alt_r; [apply ev_seq_fail; eapply ev_ref; [reflexivity|]; apply ev_seq_fail; apply (ev_lit_fail G [40]); reflexivity|].
@@ -278,6 +286,21 @@ Proof.
       replace (pos + 1 + List.length (render_steps i) + 3 + List.length body + 1)%nat
         with (pos + (1 + List.length (render_steps i) + 3 + List.length body + 1))%nat by lia.
       rewrite <- !app_assoc. reflexivity.
+  - (* number OP @ steps *)
+    apply andb_true_iff in Hb. destruct Hb as [Hb Hl]. apply andb_true_iff in Hb. destruct Hb as [Hs _].
+    replace ((lit ++ op_text o ++ 64 :: render_steps i) ++ c :: t) with (lit ++ op_text o ++ 64 :: render_steps i ++ c :: t)
+      by (rewrite <- !app_assoc; cbn [app]; rewrite <- ?app_assoc; reflexivity).
+    assert (H40 : strip_prefix [40] (lit ++ op_text o ++ 64 :: render_steps i ++ c :: t) = None).
+    { destruct (lit_head lit Hl) as (c1 & r & E & _ & _ & Hsd). rewrite E. cbn [app strip_prefix].
+      destruct (40 =? c1) eqn:E40; [|reflexivity]. apply N.eqb_eq in E40. subst c1. destruct Hsd as [H|H]; discriminate H. }
+    eapply ev_conv.
+    + eapply ev_ref; [reflexivity|].
+      apply ev_alt_r; [apply ev_seq_fail; eapply ev_ref; [reflexivity|]; apply ev_seq_fail; apply (ev_lit_fail G [40]); exact H40|].
+      apply ev_alt_l. eapply ev_seq_ok; [apply ev_cap; apply (ev_rule39_lcmp i lit t c Hq Hs Hl o pos)|apply ev_act|reflexivity].
+    + f_equal; try lia.
+      replace (pos + List.length lit + List.length (op_text o) + 1 + List.length (render_steps i))%nat
+        with (pos + (List.length lit + List.length (op_text o) + 1 + List.length (render_steps i)))%nat by lia.
+      rewrite <- !app_assoc. reflexivity.
 Qed.
 
 (* ---------- conjunctions ---------- *)
@@ -304,7 +327,7 @@ Proof.
     + f_equal. lia.
   - cbn [forallb] in Hs. apply andb_true_iff in Hs. destruct Hs as [H1 H2].
     cbn [and_tail flat_map and_rest]. fold (and_tail r). rewrite <- !app_assoc. cbn [app].
-    destruct (and_tail_head r c t Hc) as (c' & t' & Eh & Hq'). destruct (bq_head x) as (x0 & xr & Ex & Hx0).
+    destruct (and_tail_head r c t Hc) as (c' & t' & Eh & Hq'). destruct (bq_head x H1) as (x0 & xr & Ex & Hx0).
     assert (E1 : evG (PSeq (PRef 37) (PSeq (PRef 35) (PAct 25))) (38 :: 38 :: bq_text x ++ and_tail r ++ c :: t) pos
                      (POk (and_tail r ++ c :: t) (pos + 2 + List.length (bq_text x)) (bq_tokens (pos + 2) x ++ [TAct 25]))).
     { eapply ev_conv.
@@ -350,7 +373,7 @@ Lemma or_tail_head cs t : exists c' t', or_tail cs ++ 41 :: t = c' :: t' /\ cend
 Proof. destruct cs as [|x r]; cbn [or_tail flat_map app]; eexists _, _; (split; [reflexivity|]); [left|right]; reflexivity. Qed.
 Lemma and_text_head c : conj_ok c = true -> exists x r, and_text c = x :: r /\ x <> 32.
 Proof.
-  destruct c as [|b bs]; [discriminate|]. intros _. destruct (bq_head b) as (x & r & E & H). cbn [and_text]. rewrite E. cbn [app]. eexists _, _. split; [reflexivity|exact H].
+  destruct c as [|b bs]; [discriminate|]. intros Hc. cbn [conj_ok forallb] in Hc. apply andb_true_iff in Hc. destruct (bq_head b (proj1 Hc)) as (x & r & E & H). cbn [and_text]. rewrite E. cbn [app]. eexists _, _. split; [reflexivity|exact H].
 Qed.
 
 Lemma ev_or_star cs t : forallb conj_ok cs = true -> forall pos,
@@ -468,7 +491,7 @@ Section QueryExec.
 
   Definition qnum (lit : list N) : num := match parse_float (text_of lit) with Some f => f | None => Fin 0 0 end.
   Definition bq_okp (b : bq) : bool :=
-    match b with BC _ _ lit => match parse_float (text_of lit) with Some _ => true | None => false end | BX _ body => regex_ok (text_of body) | _ => true end.
+    match b with BC _ _ lit | BCL lit _ _ => match parse_float (text_of lit) with Some _ => true | None => false end | BX _ body => regex_ok (text_of body) | _ => true end.
   Definition litv_vd (l : litv) : validator := match l with LStr _ _ => VdString | LBool _ _ => VdBool | LNull _ => VdNil end.
   Definition lit_cmp (i : list rstep) (l : litv) : query := QCmp (cmp_left cfg i) (CP (PqLit (litv_value l)) true) (CDirectEq (litv_vd l)).
   Definition bq_query (b : bq) : query :=
@@ -482,6 +505,7 @@ Section QueryExec.
     | BCR i o j => QCmp (cmp_left cfg i) (CP (root_pq cfg j) true) (match o with OLt => CLt | OLe => CLe | OGt => CGt | _ => CGe end)
     | BPQ i ne j => let q := QCmp (cmp_left cfg i) (CP (root_pq cfg j) true) CDeepEq in if ne then QNot q else q
     | BX i body => rx_query cfg i body
+    | BCL lit o i => cmp_query cfg i (mirror_op o) (qnum lit)
     end.
 
   Lemma unescape_plain q body : forallb (plain_for q) body = true -> unescape_cps body = body.
@@ -515,7 +539,7 @@ Section QueryExec.
   Lemma exec_bq input p b rest ps toks cps bg : bq_ok b = true -> bq_okp b = true -> skipn p input = bq_text b ++ rest ->
     exists cps' b', execute (bq_tokens p b ++ toks) input cps bg (mk ps) = execute toks input cps' b' (mk (ps ++ [IQuery (bq_query b)])).
   Proof.
-    intros Hb Hp Hin. destruct b as [i|i|i o lit|i ne l|j|j|i o j|i ne j|i body]; cbn [bq_ok bq_okp bq_text bq_tokens bq_query] in *.
+    intros Hb Hp Hin. destruct b as [i|i|i o lit|i ne l|j|j|i o j|i ne j|i body|lit o i]; cbn [bq_ok bq_okp bq_text bq_tokens bq_query] in *.
     - set (L := List.length (render_steps i)).
       replace (([TAct 38] ++ inner_tokens p i ++ [TAct 39; TText p (p + 1 + L); TAct 27]) ++ toks)
         with ([TAct 38] ++ inner_tokens p i ++ [TAct 39] ++ ([TText p (p + 1 + L); TAct 27] ++ toks))
@@ -785,6 +809,54 @@ Section QueryExec.
       rewrite E34. cbn [abind].
       assert (E26 : forall c0 b0, exec_action 26 c0 b0 (mk (ps ++ [IQuery (rx_query cfg i body)])) = AOk (mk (ps ++ [IQuery (rx_query cfg i body)]))).
       { intros c0 b0. cbn [Actions.exec_action]. rewrite pop_mk. reflexivity. }
+      rewrite E26. cbn [abind]. eexists _, _. reflexivity.
+    - (* number OP @ steps: the operands are exchanged and an ordering is mirrored *)
+      apply andb_true_iff in Hb. destruct Hb as [Hb Hl]. apply andb_true_iff in Hb. destruct Hb as [Hs Hvg]. apply negb_true_iff in Hvg.
+      destruct (parse_float (text_of lit)) as [f|] eqn:Hpf; [|discriminate Hp].
+      assert (Eq : qnum lit = f) by (unfold qnum; rewrite Hpf; reflexivity). rewrite Eq.
+      set (L := List.length (render_steps i)). set (K := List.length (op_text o)). set (M := List.length lit).
+      unfold lcmp39_tokens, left43_tokens. fold L K M.
+      assert (Hin' : skipn p input = lit ++ op_text o ++ 64 :: render_steps i ++ rest) by (rewrite Hin; rewrite <- !app_assoc; cbn [app]; rewrite <- ?app_assoc; reflexivity).
+      replace ((([TText p (p + M); TAct 40; TAct (lit_act o)] ++
+                 ([TAct 38] ++ inner_tokens (p + M + K) i ++ [TAct 39; TText (p + M + K) (p + M + K + 1 + L); TAct 37]) ++ [TAct (op_act o)]) ++
+                [TText p (p + (M + K + 1 + L)); TAct 26]) ++ toks)
+        with ([TText p (p + M); TAct 40; TAct (lit_act o)] ++
+              ([TAct 38] ++ inner_tokens (p + M + K) i ++ [TAct 39] ++
+               ([TText (p + M + K) (p + M + K + 1 + L); TAct 37; TAct (op_act o); TText p (p + (M + K + 1 + L)); TAct 26] ++ toks)))
+        by (repeat (progress (cbn [app]) || rewrite <- app_assoc); reflexivity).
+      set (T2 := [TAct 38] ++ inner_tokens (p + M + K) i ++ [TAct 39] ++
+                 ([TText (p + M + K) (p + M + K + 1 + L); TAct 37; TAct (op_act o); TText p (p + (M + K + 1 + L)); TAct 26] ++ toks)).
+      cbn [app Actions.execute].
+      assert (Elit : sub_list input p (p + M) = lit).
+      { pose proof (sub_at input p 0 [] lit (op_text o ++ 64 :: render_steps i ++ rest)) as H. rewrite Nat.add_0_r in H. apply H; [exact Hin'|reflexivity]. }
+      rewrite Elit.
+      assert (E40 : forall b0 st, exec_action 40 lit b0 st = AOk (push (INum f) st)) by (intros b0 st; cbn [Actions.exec_action]; rewrite Hpf; reflexivity).
+      rewrite E40. cbn [abind].
+      change (push (INum f) (mk ps)) with (mk (ps ++ [INum f])).
+      assert (Elt : forall c0 b0, exec_action (lit_act o) c0 b0 (mk (ps ++ [INum f])) = AOk (mk (ps ++ [ICParam (cmp_right f)]))).
+      { intros c0 b0. destruct o; cbn [lit_act Actions.exec_action]; rewrite pop_mk; reflexivity. }
+      rewrite Elt. cbn [abind].
+      assert (Hin2 : skipn (p + M + K) input = 64 :: render_steps i ++ rest).
+      { pose proof (skipn_next input p (lit ++ op_text o) (64 :: render_steps i ++ rest)) as H. rewrite app_length in H. fold M K in H.
+        replace (p + (M + K))%nat with (p + M + K)%nat in H by lia. apply H. rewrite Hin', <- app_assoc. reflexivity. }
+      subst T2.
+      rewrite (exec_operand input (p + M + K) i rest (ps ++ [ICParam (cmp_right f)]) _ _ _ Hs Hin2). cbn [app Actions.execute].
+      assert (E37 : forall c0 b0, exec_action 37 c0 b0 (mk ((ps ++ [ICParam (cmp_right f)]) ++ [IPQ (filter_pq cfg i); IBool false])) =
+                                 AOk (mk ((ps ++ [ICParam (cmp_right f)]) ++ [ICParam (cmp_left cfg i)]))).
+      { intros c0 b0. cbn [Actions.exec_action].
+        change ((ps ++ [ICParam (cmp_right f)]) ++ [IPQ (filter_pq cfg i); IBool false]) with ((ps ++ [ICParam (cmp_right f)]) ++ [IPQ (filter_pq cfg i)] ++ [IBool false]).
+        rewrite app_assoc, pop_mk. cbn [abind]. rewrite pop_mk. cbn [abind]. unfold cmp_left, filter_pq. rewrite (operand_vg cfg), Hvg. reflexivity. }
+      rewrite E37. cbn [abind].
+      assert (Eop : forall c0 b0, exec_action (op_act o) c0 b0 (mk ((ps ++ [ICParam (cmp_right f)]) ++ [ICParam (cmp_left cfg i)])) =
+                                 AOk (mk (ps ++ [IQuery (cmp_query cfg i (mirror_op o) f)]))).
+      { intros c0 b0. destruct o; cbn [op_act mirror_op Actions.exec_action]; unfold two_operands, pop_cparam; rewrite pop_mk; cbn [abind]; rewrite pop_mk; cbn [abind];
+          unfold cmp_query, cmp_left, cmp_right, filter_pq; try reflexivity.
+        unfold pop_query.
+        match goal with |- context [push_compare_eq ?l ?r (mk ps)] => change (push_compare_eq l r (mk ps)) with (mk (ps ++ [IQuery (QCmp r l (CDirectEq VdNumeric))])) end.
+        rewrite pop_mk. reflexivity. }
+      rewrite Eop. cbn [abind].
+      assert (E26 : forall c0 b0, exec_action 26 c0 b0 (mk (ps ++ [IQuery (cmp_query cfg i (mirror_op o) f)])) = AOk (mk (ps ++ [IQuery (cmp_query cfg i (mirror_op o) f)]))).
+      { intros c0 b0. cbn [Actions.exec_action]. rewrite pop_mk. cbn [abind]. destruct o; reflexivity. }
       rewrite E26. cbn [abind]. eexists _, _. reflexivity.
   Qed.
 
